@@ -35,7 +35,7 @@ fn locate(k: Kind, entries: &[refenc::RefEntry], off: usize) -> (String, String)
 
 pub fn oracle(p: &Program) -> Vec<Violation> {
     let flat = flatten(p);
-    let mask = refusal_mask(p, &flat);
+    let mut tr = Tracker::new(p, &flat);
     let mut out: Vec<Violation> = Vec::new();
     let name = p.kind.name();
     if p.kind == Kind::Sdt {
@@ -46,20 +46,13 @@ pub fn oracle(p: &Program) -> Vec<Violation> {
         }).collect();
     }
     let total = flat.len();
-    let mut accepted: Vec<Op> = Vec::new();
-    let mut next = 0usize;
     let r = drive(p, &flat, &mut |o: &Obs| {
-        while next < o.step {
-            if !mask[next] {
-                accepted.push(flat[next].clone());
-            }
-            next += 1;
-        }
-        if !out.is_empty() {
+        let mismatch = tr.observe(&flat, o.step, o.refused);
+        if !out.is_empty() || tr.undefined {
             return;
         }
-        if o.step > 0 && o.refused != mask[o.step - 1] {
-            let kind = if o.refused { "refused-valid" } else { "accepted-invalid" };
+        let accepted = &tr.accepted;
+        if let Some(kind) = mismatch {
             out.push(Violation::new("C04", &format!("{}/{}", name, flat[o.step - 1].label()), kind, String::new(), format!("step={} op={}", o.step, trunc(format!("{:?}", flat[o.step - 1]), 300))));
             return;
         }
@@ -67,7 +60,7 @@ pub fn oracle(p: &Program) -> Vec<Violation> {
         if !(total <= 48 || o.step == total || o.step % 61 == 0 || o.step <= 3) {
             return;
         }
-        let (want, entries, _) = refenc::image(p, &accepted);
+        let (want, entries, _) = refenc::image(p, accepted);
         if want.as_slice() == o.image {
             return;
         }
